@@ -338,6 +338,35 @@ def k_trigger_nonref(f, rng):
     return Exp(r"Only references to other fields are allowed in the 'trigger' column", "row", row=r)
 
 
+@kind("trigger-on-element-without-control", 3)
+def k_trigger_no_control(f, rng):
+    """The action of a triggered calculation is nested in the triggering question's control: a trigger that names something without a control
+    (a hidden/metadata question, a calculate, a group or repeat, the last-saved copy of a question) leaves nowhere to put it."""
+    variant = pick(rng, ["hidden", "start", "today", "deviceid", "calculate", "group", "repeat", "last-saved", "bg-calculate", "bg-hidden"])
+    tname = fresh(f, "trgsrc")
+    if variant in ("hidden", "start", "today", "deviceid"):
+        f.survey.insert(rng.randint(0, len(f.survey)), Row("q", variant, tname, {}))
+    elif variant in ("calculate", "bg-calculate"):
+        f.survey.insert(rng.randint(0, len(f.survey)), Row("q", "calculate", tname, {"calculation": "1 + 1"}))
+    elif variant == "bg-hidden":
+        f.survey.insert(rng.randint(0, len(f.survey)), Row("q", "hidden", tname, {}))
+    elif variant in ("group", "repeat"):
+        f.survey.append(Row(variant, f"begin {variant}", tname, {"label": "sec"}, [Row("q", "text", fresh(f, "insec"), {"label": "in"})]))
+    else:
+        f.survey.insert(0, Row("q", "text", tname, {"label": "src"}))
+    trig = "${last-saved#%s}" % tname if variant == "last-saved" else "${%s}" % tname
+    if variant.startswith("bg-"):
+        r = Row("q", "background-geopoint", fresh(f, "bgp"), {"trigger": trig})
+    else:
+        r = Row("q", pick(rng, ["calculate", "text", "integer"]), fresh(f, "trg"), {"label": "L", "calculation": "1 + 1", "trigger": trig})
+        if r.type == "calculate":
+            r.cells.pop("label")
+    f.survey.append(r)
+    e = Exp(r"not user-visible so it can't be used as a calculation trigger|Only references to other fields are allowed in the 'trigger' column|the 'trigger' column must be a reference to another", "none")
+    e.sub = variant
+    return e
+
+
 @kind("trigger-unknown-reference", 1)
 def k_trigger_unknown(f, rng):
     r = add_row_somewhere(f, rng, Row("q", pick(rng, ["calculate", "text"]), fresh(f, "trg"), {"label": "L", "calculation": "1 + 1", "trigger": "${nosuch_trig}"}))
